@@ -266,6 +266,15 @@ class Gen:
             if p.get("optional") and (d >= self.maxdepth or self.r.random() >= self.p_opt):
                 continue
             out[k] = self.gen(p["type"], d + 1)
+        # correlated siblings, as real peers send them: a plain string property next to a URI property
+        # sometimes holds the URI's last path segment (WorkspaceFolder.name, file names, labels)
+        if len(out) >= 2:
+            uris = [k for k, p in props.items() if k in out and p["type"].get("kind") == "base" and p["type"].get("name") in ("DocumentUri", "URI")]
+            strs = [k for k, p in props.items() if k in out and k != want and p["type"].get("kind") == "base" and p["type"].get("name") == "string"]
+            if uris and strs and self.r.random() < 0.35:
+                u = out[uris[0]][1] if out[uris[0]][0] == "leaf" else None
+                if isinstance(u, str) and "/" in u.rstrip("/"):
+                    out[strs[0]] = ("leaf", u.rstrip("/").rsplit("/", 1)[-1])
         return ("obj", owner, out)
 
 
